@@ -36,6 +36,7 @@ import (
 	"net"
 	"sort"
 	"strings"
+	"sync"
 	"time"
 	"unicode/utf8"
 
@@ -424,21 +425,24 @@ func expect(s *scenario, issuerName pkix.Name, parentSKID []byte) *expected {
 			e.pathLen = 0
 		}
 	}
-	e.skid = t.SubjectKeyId
-	e.akid = [][]byte{t.AuthorityKeyId}
+	// (byte values are copied: the expectation is taken BEFORE the creation call and must not follow
+	// anything the call might write into the template)
+	e.skid = cloneBytes(t.SubjectKeyId)
+	e.akid = [][]byte{cloneBytes(t.AuthorityKeyId)}
+	parentSKID = cloneBytes(parentSKID)
 	if !s.self() && len(parentSKID) > 0 {
 		// doc comment of CreateCertificate: "The AuthorityKeyId will be taken from the SubjectKeyId of
 		// parent, if any, unless the resulting certificate is self-signed."
 		e.akid = append(e.akid, parentSKID)
 	}
-	e.dns = t.DNSNames
-	e.emails = t.EmailAddresses
+	e.dns = cloneStrs(t.DNSNames)
+	e.emails = cloneStrs(t.EmailAddresses)
 	for _, ip := range t.IPAddresses {
 		e.ips = append(e.ips, hexIP(ip))
 	}
-	e.ocsp = t.OCSPServer
-	e.caIssuers = t.IssuingCertificateURL
-	e.crldp = t.CRLDistributionPoints
+	e.ocsp = cloneStrs(t.OCSPServer)
+	e.caIssuers = cloneStrs(t.IssuingCertificateURL)
+	e.crldp = cloneStrs(t.CRLDistributionPoints)
 	e.policies = oidStrings(t.PolicyIdentifiers)
 
 	e.permDNS, e.exclDNS = subtreeData(t.PermittedDNSNames), subtreeData(t.ExcludedDNSNames)
@@ -456,7 +460,7 @@ func expect(s *scenario, issuerName pkix.Name, parentSKID []byte) *expected {
 	// "ExtraExtensions contains extensions to be copied, raw, into any marshaled certificates. Values
 	// override any extensions that would otherwise be produced based on the other fields."
 	for _, x := range t.ExtraExtensions {
-		e.extras = append(e.extras, extExp{x.Id.String(), x.Critical, x.Value})
+		e.extras = append(e.extras, extExp{x.Id.String(), x.Critical, cloneBytes(x.Value)})
 		for i := range overrides {
 			if overrides[i].oidString() == x.Id.String() && bytes.Equal(overrides[i].value, x.Value) {
 				overrides[i].patch(e)
@@ -464,6 +468,20 @@ func expect(s *scenario, issuerName pkix.Name, parentSKID []byte) *expected {
 		}
 	}
 	return e
+}
+
+func cloneBytes(b []byte) []byte {
+	if b == nil {
+		return nil
+	}
+	return append([]byte{}, b...)
+}
+
+func cloneStrs(v []string) []string {
+	if v == nil {
+		return nil
+	}
+	return append([]string{}, v...)
 }
 
 // ------------------------------------------------------------------ override extensions
@@ -1062,41 +1080,118 @@ func stdVerify(signKind int, alg x509.SignatureAlgorithm, der []byte) error {
 
 // ------------------------------------------------------------------ one case
 
-func evaluate(s *scenario) *result {
+// issuerRes is how a scenario's issuer alternative resolves to call arguments and expectations.
+type issuerRes struct {
+	arg      *x509.Certificate // the parent argument of CreateCertificate
+	name     pkix.Name         // the issuer name the certificate must report
+	skid     []byte            // the parent's SubjectKeyId (nil when self-signed)
+	verifier func() *x509.Certificate // parsed CA certificate with that name and the signer's key (nil when self-signed)
+}
+
+// parsedCAFor: CheckSignatureFrom compares the parent's RawSubject with the certificate's RawIssuer,
+// so an unparsed parent template that a history has renamed needs a parsed CA certificate of the same
+// name and key for the verification API. Minted once per (signer kind, name) like the other CA fixtures.
+var parsedCAs sync.Map
+
+func parsedCAFor(kind int, name pkix.Name) *x509.Certificate {
+	key := fmt.Sprint(kind, "|", strings.Join(atvStrings(expectName(name)), "|"))
+	if c, ok := parsedCAs.Load(key); ok {
+		return c.(*x509.Certificate)
+	}
+	t := newParentStruct()
+	t.Subject = name
+	der, err := x509.CreateCertificate(fx.NewRand("c04-parent-"+key), t, t, signerKeys[kind].Public(), signerKeys[kind])
+	if err != nil {
+		panic("cannot mint CA fixture " + key + ": " + err.Error())
+	}
+	c, err := x509.ParseCertificate(der)
+	if err != nil {
+		panic("cannot parse CA fixture " + key + ": " + err.Error())
+	}
+	parsedCAs.Store(key, c)
+	return c
+}
+
+func resolveIssuer(s *scenario) issuerRes {
+	switch {
+	case s.self():
+		return issuerRes{arg: s.t, name: s.t.Subject}
+	case s.issuer == issByStruct:
+		kind, name := s.signKind, s.parentStruct.Subject
+		return issuerRes{arg: s.parentStruct, name: name, skid: s.parentStruct.SubjectKeyId,
+			verifier: func() *x509.Certificate { return parsedCAFor(kind, name) }}
+	}
+	p := parents[s.signKind][s.parentShape()]
+	return issuerRes{arg: p.cert, name: p.name, skid: p.skid, verifier: func() *x509.Certificate { return p.cert }}
+}
+
+func subjectPub(s *scenario) crypto.PublicKey {
+	if s.self() {
+		return signerKeys[s.signKind].Public()
+	}
+	return subjectKeys[s.subjKind].Public()
+}
+
+// issue performs the creation call on the scenario's objects and nothing else.
+func issue(s *scenario) (der []byte, err error, panicked bool, msg, site string) {
+	is := resolveIssuer(s)
+	panicked, msg, site = ev.Try(func() {
+		der, err = x509.CreateCertificate(fx.NewRand("c04-sign"), s.t, is.arg, subjectPub(s), signerKeys[s.signKind])
+	})
+	return
+}
+
+// evaluate: one template, created once from fresh objects.
+func evaluate(s *scenario) *result { return evaluateAs(s, s, false) }
+
+// evaluateAs performs the creation call on the objects of live and judges the result by the
+// expectation derived from model. For a single-shot case live == model. In a reuse history live
+// holds the objects that earlier creation calls have already seen (edited in place since), model
+// is a fresh construction of what those objects are SUPPOSED to hold now: nothing a creation call
+// may have left behind in its inputs can reach the expectation.
+//
+// namePaths selects the tier of the input immutability probe: false = digest only (r.changed),
+// true = path-naming snapshots (r.mutated and the probe classes); the drivers re-execute a case
+// with namePaths when its digest changed.
+func evaluateAs(live, model *scenario, namePaths bool) *result {
 	r := &result{}
 	viol := func(sig, detail string) { r.viol = append(r.viol, violation{sig, detail}) }
 	class := func(f string, a ...any) { r.classes = append(r.classes, fmt.Sprintf(f, a...)) }
+	s := model
 
-	// issuer
-	var parent *parentInfo
-	var parentArg *x509.Certificate
-	var issuerName pkix.Name
-	var parentSKID []byte
-	priv := signerKeys[s.signKind]
-	var pub crypto.PublicKey
-	if s.self() {
-		parentArg = s.t
-		issuerName = s.t.Subject
-		pub = priv.Public()
-	} else {
-		parent = parents[s.signKind][s.parentShape()]
-		parentArg = parent.cert
-		if s.issuer == issByStruct {
-			parentArg = parent.tmpl
-		}
-		issuerName = parent.name
-		parentSKID = parent.skid
-		pub = subjectKeys[s.subjKind].Public()
+	li, mi := resolveIssuer(live), resolveIssuer(model)
+	issuerName, parentSKID := mi.name, mi.skid
+
+	dom, why := inDomain(model, issuerName)
+	// the expectation is fixed before the call (values copied)
+	var e *expected
+	if dom {
+		e = expect(model, issuerName, parentSKID)
 	}
 
-	dom, why := inDomain(s, issuerName)
+	// input immutability probe: everything reachable from the template and the parent, before and after
+	roots := map[string]any{"template": live.t}
+	if li.arg != live.t {
+		roots["parent"] = li.arg
+	}
+	var before snap
+	var digest []byte
+	if namePaths {
+		before = takeSnap(roots)
+	} else {
+		digest = takeDigest(live.t, li.arg)
+	}
 
-	var der []byte
-	var err error
-	panicked, msg, site := ev.Try(func() {
-		der, err = x509.CreateCertificate(fx.NewRand("c04-sign"), s.t, parentArg, pub, priv)
-	})
+	der, err, panicked, msg, site := issue(live)
 	r.ops++
+	if namePaths {
+		for _, p := range before.changedPaths(takeSnap(roots)) {
+			r.mutated = append(r.mutated, p)
+			class("probe: CreateCertificate changed its input %s (undocumented; what that does to a later call is judged by the reuse histories)", p)
+		}
+	} else if !bytes.Equal(digest, takeDigest(live.t, li.arg)) {
+		r.changed = true
+	}
 	if panicked {
 		if dom {
 			viol(fmt.Sprintf("panic@%s: %s (CreateCertificate, template inside the documented domain)", site, ev.MsgClass(msg)), msg)
@@ -1127,8 +1222,8 @@ func evaluate(s *scenario) *result {
 		viol("CreateCertificate fails inside the documented domain: "+ev.MsgClass(err.Error()), err.Error())
 		return r
 	}
+	r.der = der
 
-	e := expect(s, issuerName, parentSKID)
 
 	var zc *x509.Certificate
 	panicked, msg, site = ev.Try(func() { zc, err = x509.ParseCertificate(der) })
@@ -1153,7 +1248,7 @@ func evaluate(s *scenario) *result {
 	// signature against the parent: the real CheckSignatureFrom ...
 	verifier := zc // self-signed: the certificate is its own parent
 	if !s.self() {
-		verifier = parent.cert
+		verifier = mi.verifier()
 	}
 	var serr error
 	panicked, msg, site = ev.Try(func() { serr = zc.CheckSignatureFrom(verifier) })
